@@ -200,7 +200,13 @@ func init() {
 			if a.Str("fn") == "NewEncryptedLeaseSet" {
 				inner := make([]byte, m.Int("innerlen"))
 				rng.Read(inner)
-				els, err := encrypted_leaseset.NewEncryptedLeaseSet(uint16(st), id.pub, uint32(u64(m.Bytes("published"))), uint16(m.Int("expires")), uint16(m.Int("flags")), off, inner, signingKey)
+				blinded := id.pub
+				if d := m.Int("keydelta"); d < 0 {
+					blinded = blinded[:len(blinded)+d]
+				} else if d > 0 {
+					blinded = append(append([]byte{}, blinded...), make([]byte, d)...)
+				}
+				els, err := encrypted_leaseset.NewEncryptedLeaseSet(uint16(st), blinded, uint32(u64(m.Bytes("published"))), uint16(m.Int("expires")), uint16(m.Int("flags")), off, inner, signingKey)
 				res["ok"], res["err"] = err == nil && els != nil, errStr(err)
 				if err == nil && els != nil {
 					verr := els.Validate()
